@@ -481,6 +481,10 @@ def reuse_design(kind, p):
         qw = p['qw']
         for k, ew in enumerate(p['ew']):
             L.Reg(top, f'u{k}', I(f'd{k}', qw), O(f'q{k}', qw), enable=I(f'e{k}', ew))
+    elif kind == 'reg_rw':
+        qw = p['qw']
+        for k, rw in enumerate(p['rw']):
+            L.Reg(top, f'u{k}', I(f'd{k}', qw), O(f'q{k}', qw), reset=I(f'r{k}', rw))
     elif kind == 'latch':
         qw = p['qw']
         for k, (dw, ew) in enumerate(p['dew']):
